@@ -180,6 +180,19 @@ func (a *Affiliation) computeTriggersForCastingSites(pass *analysishelper.Enhanc
 							}
 						}
 					}
+					// special case of a 1-to-n return of a function with multiple returns: e.g., `return foo()` in
+					// `func m() (I, int)`, where foo() returns (*S, int) (the only result expression is then of a
+					// tuple type, for which the loop above finds nothing)
+					if len(node.Results) == 1 {
+						if rhsSig, ok := pass.TypesInfo.TypeOf(node.Results[0]).(*types.Tuple); ok {
+							if fdecl, ok := pass.TypesInfo.Defs[f.Name].(*types.Func); ok {
+								funcSigResults := fdecl.Type().(*types.Signature).Results()
+								for i := 0; i < rhsSig.Len() && i < funcSigResults.Len(); i++ {
+									appendTypeToTypeTriggers(funcSigResults.At(i).Type(), rhsSig.At(i).Type())
+								}
+							}
+						}
+					}
 
 				case *ast.CompositeLit:
 					switch nodeType := node.Type.(type) {
